@@ -1,10 +1,43 @@
-(* Properties_C14.v — obligations of property C14.  Contains only theorem statements closed by
-   `exact <lemma>` and Print Assumptions. *)
-Require Import ObsRun.
+(* Properties_C14.v — obligations of property C14 (hex-string input is strictly validated and
+   equivalent to binary input). *)
+Require Import ObsRun Lemmas_Hex Lemmas_Settings.
 Local Open Scope Z_scope.
 
-(* non-vacuity: the observer of C14 is evaluated (and holds) along a run of the model that
-   touches every group kind *)
+(* for EVERY byte string (any length, any bytes): accepted iff 16 or 18 hexadecimal digits *)
+Theorem C14_accept_iff : forall l, parse_string_result (Some l) = hex_ok l.
+Proof. intros l. unfold parse_string_result. apply utils_convert_accepts. Qed.
+Print Assumptions C14_accept_iff.
+
+(* an accepted string has exactly the effect (state and callbacks) of rdsparser_parse with the
+   four big-endian blocks and the error byte split 7-6 / 5-4 / 3-2 / 1-0 (zero when absent) *)
+Theorem C14_equivalent_to_binary : forall conv lut s l, hex_ok l = true ->
+  step conv lut s (OParseString (Some l)) = step conv lut s (OParse (decode l)).
+Proof. intros conv lut s l H. cbn [step]. rewrite (utils_convert_spec l H). reflexivity. Qed.
+Print Assumptions C14_equivalent_to_binary.
+
+(* every other input, NULL included, returns false, fires nothing, changes nothing *)
+Theorem C14_reject_inert : forall conv lut s str,
+  parse_string_result str = false -> step conv lut s (OParseString str) = (s, []).
+Proof.
+  intros conv lut s [l|] H; [|reflexivity]. cbn [step]. unfold parse_string_result in H.
+  destruct (utils_convert l); [discriminate|reflexivity].
+Qed.
+Print Assumptions C14_reject_inert.
+
+Theorem C14_observer : forall conv lut s o h,
+  obs_C14 (o :: h) (snap_of s) (snap_of (fst (step conv lut s o))) (snd (step conv lut s o)) (ret_of o) = true.
+Proof.
+  intros conv lut s o h. unfold obs_C14. destruct o; try reflexivity.
+  unfold ret_of. destruct str as [l|].
+  - rewrite C14_accept_iff, Z.eqb_refl. cbn [andb]. destruct (hex_ok l) eqn:H; [reflexivity|].
+    rewrite C14_reject_inert by (rewrite C14_accept_iff; exact H). cbn [fst snd].
+    rewrite snapshot_eqb_refl. reflexivity.
+  - cbn [parse_string_result step fst snd b2z]. rewrite snapshot_eqb_refl. reflexivity.
+Qed.
+Print Assumptions C14_observer.
+
 Example C14_scenario : check_run_u (observer_u 14) scenario = true.
 Proof. vm_compute. reflexivity. Qed.
-Print Assumptions C14_scenario.
+Example C14_decode_example :
+  decode [49;50;51;52;65;66;67;68;53;54;55;56;101;102;57;48;49;66] = mkgroup 4660 43981 22136 61328 0 1 2 3.
+Proof. vm_compute. reflexivity. Qed.
